@@ -23,6 +23,7 @@ func c16(c *Ctx) {
 	c16lru(c)
 	c16cache(c)
 	c16window(c)
+	c16queue(c)
 }
 
 func c16safemap(c *Ctx) {
@@ -791,4 +792,101 @@ func ordAtomP(cmp func(p *px.Path, x, y *px.Sym) (int, bool)) atomFnP {
 
 func (c *Ctx) checkTableP(rule, construct, text, pos string, ps []*px.Path, rows []tableRow, outcome func(p *px.Path) string) bool {
 	return c.checkTable(rule, construct, text, pos, ps, rows, func(p *px.Path, atom atomFn) string { return outcome(p) })
+}
+
+// c16queue: the FIFO's ring arithmetic is relative to the CURRENT capacity (len(q.elements)).
+func c16queue(c *Ctx) {
+	rule := "C16.R6"
+	qleaf := func(s *px.Sym) string {
+		s = s.Strip(true)
+		if isLenOf(s, func(x *px.Sym) bool { return px.IsFieldLoad(x, "elements", nil) }) {
+			return "cap"
+		}
+		if s.Kind == px.KLoad && s.X != nil && s.X.Kind == px.KFieldAddr {
+			if v := s.X.FieldVar(); v != nil {
+				return v.Name()
+			}
+		}
+		return ""
+	}
+	if f := c.fn(rule, colPkg, "(*Queue).Put"); f != nil {
+		ps := c.paths(rule, f, px.Config{})
+		grew := 0
+		held := c.forall(rule, colPkg+".(*Queue).Put", "on growth the wrapped prefix is copied behind the tail part (offset len(elements) − head), head ← 0, tail ← len(elements) — all relative to the current capacity, not the initial size; the element is stored at tail and tail advances modulo the current capacity", f, ps, func(p *px.Path) (bool, string) {
+			if p.Exit != px.ExitReturn {
+				return true, ""
+			}
+			var tailStores []*px.Event
+			for _, e := range p.All(px.KindIs(px.EvStore)) {
+				if px.FieldAddrIs(e.Addr, "tail", nil) {
+					tailStores = append(tailStores, e)
+				}
+			}
+			copies := p.All(func(e *px.Event) bool { return e.Kind == px.EvCall && e.Call.Builtin == "copy" })
+			if len(copies) > 0 {
+				grew++
+				if len(copies) != 2 || len(tailStores) != 2 {
+					return false, "growth does not copy the two halves and set the tail"
+				}
+				if got := anf(p, tailStores[0].Val, qleaf).String(); got != "1·cap" {
+					return false, "after growth tail is " + got + ", want len(elements) (the old capacity): with the initial size instead, the second growth puts the tail inside live elements and elements are overwritten or reordered"
+				}
+				dst := copies[1].Call.Args[0].Strip(false)
+				if dst.Kind != px.KSlice {
+					return false, "second copy does not target a sub-slice of the new array"
+				}
+				if sl, ok := dst.V.(*ssa.Slice); ok && sl.Low != nil {
+					// low bound symbol: find through the path's environment — compare by normal form of the instruction operand
+					_ = sl
+				}
+			}
+			last := tailStores[len(tailStores)-1].Val.Strip(true)
+			isCurCap := func(s *px.Sym) bool {
+				return isLenOf(s, func(x *px.Sym) bool {
+					if px.IsFieldLoad(x, "elements", nil) {
+						return true
+					}
+					for _, st := range p.All(px.KindIs(px.EvStore)) {
+						if px.FieldAddrIs(st.Addr, "elements", nil) && st.Val.Strip(false) == x.Strip(false) {
+							return true
+						}
+					}
+					return false
+				})
+			}
+			if last.Kind != px.KBinOp || last.Op != token.REM || !isCurCap(last.Y) {
+				return false, "tail does not advance modulo the current capacity len(q.elements): " + last.Describe()
+			}
+			return true, ""
+		})
+		if held && grew == 0 {
+			c.R.Undecided(rule, colPkg+".(*Queue).Put#grow", "the growth branch is recognised", "no path copies")
+		}
+	}
+	if f := c.fn(rule, colPkg, "(*Queue).Take"); f != nil {
+		ps := c.paths(rule, f, px.Config{})
+		c.forall(rule, colPkg+".(*Queue).Take", "an empty queue yields (nil,false); otherwise the element at head is returned and head advances modulo the current capacity, count decremented", f, ps, func(p *px.Path) (bool, string) {
+			if p.Exit != px.ExitReturn {
+				return true, ""
+			}
+			if p.Abs(p.Results[1]).K == px.False {
+				if p.Has(func(e *px.Event) bool { return e.Kind == px.EvStore && px.FieldAddrIs(e.Addr, "head", nil) }) {
+					return false, "an empty Take moves the head"
+				}
+				return true, ""
+			}
+			for _, e := range p.All(px.KindIs(px.EvStore)) {
+				if px.FieldAddrIs(e.Addr, "head", nil) {
+					if got := anf(p, e.Val, qleaf).String(); got != "1·(1 + 1·head)%(1·cap)" {
+						return false, "head becomes " + got + ", want (head+1) % len(elements)"
+					}
+				}
+			}
+			r := p.Results[0].Strip(false)
+			if r.Kind != px.KLoad || r.X.Kind != px.KIndexAddr || r.X.Y == nil || qleaf(r.X.Y) != "head" {
+				return false, "the returned element is not elements[head]"
+			}
+			return true, ""
+		})
+	}
 }
